@@ -1012,6 +1012,11 @@ func monitor(c kcase, obs kobs, built []*builtBatch) (vs []core.Violation, outsi
 							what += fmt.Sprintf("; records %v failed in call %d with error codes of class %v and were never sent again", droppedIDs, k, cls)
 						}
 						add(sig, what)
+						if strings.HasSuffix(sig, "/reordered") {
+							// the same history under C05: the records of one batch reach the sink (this call) in an
+							// order other than the one they were delivered in
+							vs = append(vs, core.Violation{Property: "C05", Signature: "kinesis/retry-call-out-of-delivery-order", What: what, Case: c})
+						}
 					}
 				default:
 					add("call-after-fatal-answer", fmt.Sprintf("batch %d: call %d follows answer %+v (permanent error, nil count or wrong length)", e.batch, k+1, kc.step))
